@@ -13,7 +13,8 @@ TECHNIQUE = ("exhaustive enumeration of laminar span families up to order-isomor
 RULE = ("every laminar family of N spans whose endpoint set is {0..k} (2/13/110/1066/... families for N=1..4) x "
         "every assignment of event ids x every row order of the frame (bounds per tier in 'bounds'), evaluated on "
         "hta.common.call_stack.CallStackGraph (critical-path builder) and hta.common.trace_call_stack.CallStackGraph "
-        "(call-graph builder); plus a file slice through CallGraph(trace). non-trivial = the family has a shared "
+        "(call-graph builder); plus a file slice through CallGraph(trace) and a multi-thread slice (three host threads "
+        "sharing thread ids across processes and with a device stream, through both CallGraph classes). non-trivial = the family has a shared "
         "endpoint, an identical pair or a zero-duration span")
 ASSUMPTIONS = [
     "both comparators only test ==/< on times and durations, so a family is determined by the weak order of its "
@@ -46,6 +47,12 @@ def worlds(tier: str, stats: Dict[str, Any]) -> Iterator[Any]:
         for fam in laminar.families(5):
             stats["transitions"] += 1
             yield dict(spans=[list(s) for s in fam], ids="idrev", rows="few")
+    # several host threads in one file, sharing thread ids across processes and with a device stream
+    fams2 = list(laminar.families(2))
+    for fa in fams2:
+        for fb in (fams2[3], fams2[7], fams2[11]):
+            stats["transitions"] += 1
+            yield dict(spans=[list(s) for s in fa], spans_b=[list(s) for s in fb], ids="threads", rows="file")
     # file slice: the same families (N<=3) through the public CallGraph on a loaded trace
     for n in range(1, 4):
         for fam in laminar.families(n):
@@ -196,6 +203,8 @@ def check(world) -> Dict[str, Any]:
     execs = 0
     if world["ids"] == "file":
         return check_file(world)
+    if world["ids"] == "threads":
+        return check_threads(world)
     for idp in perms(n, world["ids"]):
         events = [(BASE + 1 + idp[k], spans[k][0], spans[k][1]) for k in range(n)]
         for ro in perms(n, world["rows"]):
@@ -251,6 +260,69 @@ def check_file(world) -> Dict[str, Any]:
         viol.append((f"callgraph-file/crash/{type(ex).__name__}/{_where(traceback.format_exc())}", dict(error=repr(ex)[:300])))
     return dict(viol=_dedupe(viol), nontrivial=len({p for s in spans for p in s}) < 2 * len(spans), outcome=("file", tuple(sorted(spans))),
                 execs=execs)
+
+
+def check_threads(world) -> Dict[str, Any]:
+    """three host threads (pid, tid) = (100, 5), (200, 5), (100, 7) plus device stream 7: every thread must get its own
+    stack, in both call-graph classes"""
+    from hta.common.call_stack import CallGraph as OldCallGraph
+    from hta.common.trace_call_graph import CallGraph as NewCallGraph
+    from mc import htaenv, kineto
+
+    viol: List[Any] = []
+    E0 = 1_700_000_000_000_000
+    fa, fb = [tuple(s) for s in world["spans"]], [tuple(s) for s in world["spans_b"]]
+    threads = {(100, 5): fa, (200, 5): fb, (100, 7): fa[::-1]}
+    evs = [kineto.cpu_op("aten::root", E0 - 5, 2, ext=0, pid=100, tid=5)]
+    per_thread: Dict[Any, List[Any]] = {(100, 5): [(0, -5, -3)]}
+    for (pid, tid), fam in threads.items():
+        off = {5: 0, 7: 1}[tid] + (2 if pid == 200 else 0)
+        for k, (s, e) in enumerate(fam):
+            if e == s:
+                e = s  # zero-duration spans are kept (their placement is checked by the weaker zero-duration clauses)
+            per_thread.setdefault((pid, tid), []).append((len(evs), 4 * s + off, 4 * e + off))
+            evs.append(kineto.cpu_op(f"aten::op{k}", E0 + 4 * s + off, 4 * (e - s), ext=len(evs), pid=pid, tid=tid))
+    evs.append(kineto.runtime("cudaLaunchKernel", E0 + 40, 2, 9, pid=100, tid=5))
+    per_thread[(100, 5)].append((len(evs) - 1, 40, 42))
+    evs.append(kineto.kernel("kern", E0 + 44, 3, 7, 9))
+    execs = 0
+    for tag, cls in (("cp-callgraph-file", OldCallGraph), ("callgraph-file", NewCallGraph)):
+        ta, _ = htaenv.load_world({0: evs})
+        execs += 1
+        try:
+            cg = cls(ta.t, ranks=[0])
+            df = ta.t.get_trace(0)
+            for key, events in per_thread.items():
+                ids = [e[0] for e in events]
+                nodes = {}
+                bad = False
+                for i in ids:
+                    p_, d_ = df.loc[i, "parent"], df.loc[i, "depth"]
+                    if p_ != p_ or d_ != d_:
+                        viol.append((f"{tag}/threads/event-in-no-stack", dict(thread=key, id=i, spans=world["spans"], spans_b=world["spans_b"])))
+                        bad = True
+                        break
+                    nodes[i] = (int(p_), int(d_), [int(c) for c in df.index[(df["parent"] == i) & (df["stream"] == -1)]])
+                if bad:
+                    continue
+                roots = {p_ for (p_, _, _) in nodes.values() if p_ not in nodes}
+                other = [r for r in roots if r >= 0]
+                if other:
+                    viol.append((f"{tag}/threads/parent-on-another-thread", dict(thread=key, parents=sorted(other), spans=world["spans"], spans_b=world["spans_b"])))
+                    continue
+                root = next(iter(roots)) if roots else -1
+                if len(roots) > 1:
+                    viol.append((f"{tag}/threads/several-roots", dict(thread=key, roots=sorted(roots))))
+                    continue
+                nodes[root] = (-99, -1, [i for i, v in nodes.items() if v[0] == root])
+                verify(nodes, events, root, f"{tag}/threads", viol, dict(thread=key, events=events))
+        except Exception as ex:
+            import traceback
+
+            from mc.engine import _where
+
+            viol.append((f"{tag}/threads/crash/{type(ex).__name__}/{_where(traceback.format_exc())}", dict(error=repr(ex)[:300])))
+    return dict(viol=_dedupe(viol), nontrivial=True, outcome=("threads", tuple(fa), tuple(fb)), execs=execs, extra_transitions=execs - 1)
 
 
 def _dedupe(v):
